@@ -2,6 +2,11 @@
 """writes MANIFEST.json from the table below (keeps it valid and in one place)"""
 import json, os
 CHECKS = {
+ 'C10': dict(technique='linear ownership of the response object (R-OWN-PDU) and emission-count typestate over coap_dispatch/handle_request (R-REPLY-ONCE)',
+             text='Decides the clause "at most one direct reply per request datagram": every reply object is created once and sent or deleted exactly once on '
+                  'every path, and no path passes two emission points except Empty ACK followed by the response. The reply-code table, handler selection '
+                  'and suppression rules are not decided.',
+             design='6 C10'),
  'C06': dict(technique='send-queue node typestate {owned, in send queue, in delay queue, deleted} via the linear-ownership engine (R-OWN-NODE), gate/count/NACK-once typestate in coap_retransmit (R-RETRANS)',
              text='Decides on every path that a queue node has one owner and one disposal (never leaked, never deleted while linked in a delay queue, never used '
                   'after deletion), that retransmission is gated by retransmit_cnt < max_retransmit with exactly one increment, and that a given-up Confirmable is '
